@@ -96,7 +96,7 @@ fn classes_of(an: &Analysis, nontrivial: bool) -> Vec<&'static str> {
         c.push("eviction-occurred(may-evict model)");
     }
     if an.error_in_race {
-        c.push("error-returned-in-a-race(tolerated)");
+        c.push("error-returned-in-a-race");
     }
     if an.lin_skipped {
         c.push("linearizability-skipped(clear failed)");
@@ -187,6 +187,7 @@ fn candidate_keys() -> Vec<String> {
     let mut cats: Vec<String> = vec!["not-linearizable".into(), "books".into(), "torn-value".into(), "other-keys-value".into()];
     for k in ["get", "contains", "put", "put_zero", "remove", "clear"] {
         cats.push(format!("error-without-race:{k}"));
+        cats.push(format!("error-in-race:{k}"));
     }
     let mut out = Vec::new();
     for sys in ["memory", "disk", "container"] {
@@ -487,7 +488,7 @@ fn op_strategy(sys: Sys, nkeys: u8) -> BoxedStrategy<Op> {
                 _ => Op::Put { k },
             })
             .boxed(),
-        Sys::Container => (prop_oneof![3 => Just(0u8), 2 => Just(1u8), 3 => Just(2u8), 2 => Just(4u8)], key)
+        Sys::Container | Sys::ContainerCut => (prop_oneof![3 => Just(0u8), 2 => Just(1u8), 3 => Just(2u8), 2 => Just(4u8)], key)
             .prop_map(|(o, k)| match o {
                 0 => Op::Get { k },
                 1 => Op::Has { k },
@@ -522,7 +523,7 @@ fn random_case(sys: Sys) -> BoxedStrategy<Case> {
     (1u8..=3)
         .prop_flat_map(move |nkeys| {
             let setup_op = match sys {
-                Sys::Container | Sys::Multi => op_strategy(sys, nkeys).prop_map(|o| Op::Put { k: o.key().unwrap_or(0) }).boxed(),
+                Sys::Container | Sys::ContainerCut | Sys::Multi => op_strategy(sys, nkeys).prop_map(|o| Op::Put { k: o.key().unwrap_or(0) }).boxed(),
                 _ => (op_strategy(sys, nkeys), any::<bool>()).prop_map(|(o, z)| if z { Op::PutZero { k: o.key().unwrap_or(0) } } else { Op::Put { k: o.key().unwrap_or(0) } }).boxed(),
             };
             (
@@ -663,6 +664,7 @@ fn main() {
     ));
     ck.assume("TTLs are Duration::ZERO (expired from the start) or the default 1 h / 24 h; no clock is read by the oracle; a baton hand-over without progress for 60 s is reported as infrastructure trouble (exit 2), never as a verdict");
     ck.assume("an operation that returned an error may or may not have taken effect (both are tried by the linearizability search); a failed clear() makes the run's linearizability undecided (skipped)");
+    ck.assume("the harness's file system is healthy (tmpfs / local disk with space): an Err from any operation is the code's own doing. An error is a failure with or without a conflicting operation overlapping it (categories error-without-race / error-in-race): an operation that takes effect at one instant cannot trip over another one's intermediate state");
 
     // replay of a case found by an exhaustive section (the proptest sections replay through Check::run)
     if let Some((section, cj, path)) = ck.replay_request() {
@@ -766,6 +768,20 @@ fn main() {
             tier.pick(1, BOUND)
         );
         run_dfs_section(&mut ck, "dfs-container", scope, progs, 16, &known_keys);
+    }
+
+    {
+        // a container that came up on an archive without its tail: object 0 is indexed, reads of it
+        // take the truncated-read path (which writes to the index) while removes and writes run
+        let setups: Vec<Vec<Op>> = vec![vec![Op::Put { k: 0 }]];
+        let mut progs = programs(Sys::ContainerCut, &container_alphabet(&k0), &setups, &[2, 2], BOUND);
+        progs.extend(programs(Sys::ContainerCut, &container_alphabet(&k0), &setups, &[2, 2, 2], tier.pick(1, 2)));
+        let scope = format!(
+            "DynamicContainer opened on a store whose archive lost its tail (object 0 indexed, its bytes gone: read -> TruncatedRead = 'present'; a write stores them again), 2 tasks x 2 ops (<= {BOUND} pre-emptions) and 3 tasks x 2 ops (<= {} pre-emptions) over {{write, read, query, remove}} on key0, one program per symmetry class, every schedule at the sched_point sites: {} programs",
+            tier.pick(1, 2),
+            progs.len()
+        );
+        run_dfs_section(&mut ck, "dfs-container-truncated", scope, progs, 16, &known_keys);
     }
 
     {
